@@ -32,7 +32,9 @@ TARGETS["drv_fn"] = ("drv_fn.cpp", [], [])
 TARGETS["drv_args"] = ("drv_args.cpp", [], [])
 TARGETS["drv_kernels"] = ("drv_kernels.cpp", [], [])
 TARGETS["drv_bkldlt"] = ("drv_bkldlt.cpp", [], [])
-TARGETS["drv_matop"] = ("drv_matop.cpp", [], [])
+TARGETS["drv_matop_prod"] = ("drv_matop.cpp", ["-DVH_MATOP_PART=1"], [])
+TARGETS["drv_matop_solve"] = ("drv_matop.cpp", ["-DVH_MATOP_PART=2"], [])
+TARGETS["drv_matop_ssi"] = ("drv_matop.cpp", ["-DVH_MATOP_PART=3"], [])
 TARGETS["drv_aux"] = ("drv_aux.cpp", [], [])
 TARGETS["drv_krylov"] = ("drv_krylov.cpp", [], [])
 TARGETS["drv_mt"] = ("drv_mt.cpp", ["-pthread"], ["-pthread"])
@@ -112,16 +114,23 @@ def build(names, jobs=16, quiet=False):
     return res
 
 
-def prune(keep=3):
-    """Keep only the most recent build directories (disk is limited)."""
+def prune(keep=6, min_age_s=5400):
+    """Keep only the most recent build directories (disk is limited); never touch a directory that was used during the last
+    90 minutes (another check may be running from it)."""
     b = os.path.join(CACHE, "build")
     if not os.path.isdir(b):
         return
-    ds = sorted((os.path.getmtime(os.path.join(b, d)), d) for d in os.listdir(b))
     cur = os.path.basename(build_dir())
-    old = [d for _, d in ds if d != cur]
-    for d in old[:-keep] if keep else old:
-        subprocess.run(["rm", "-rf", os.path.join(b, d)])
+    try:
+        os.utime(os.path.join(b, cur), None)
+    except OSError:
+        pass
+    now = time.time()
+    ds = sorted((os.path.getmtime(os.path.join(b, d)), d) for d in os.listdir(b))
+    old = [(m, d) for m, d in ds if d != cur]
+    for m, d in (old[:-keep] if keep else old):
+        if now - m > min_age_s:
+            subprocess.run(["rm", "-rf", os.path.join(b, d)])
 
 
 def sany_all():
